@@ -100,7 +100,9 @@ exec_case(const Plan &p, const CaseSource &src, bool want_log = false)
 {
         RunOpts o;
         o.want_log = want_log;
-        RunResult r = run_plan(p, o);
+        if (src.isolate)
+                arena::init(); // map the arena once here so that the children inherit it
+        RunResult r = src.isolate ? run_plan_isolated(p, o) : run_plan(p, o);
         if (src.post && !r.crashed)
                 src.post(p, r, r.viols);
         return r;
@@ -507,7 +509,12 @@ run_batch(const BatchCfg &cfg, const CaseSource &src, JW *extra_cov)
                                                  (unsigned long long) run_seed, v.oracle.c_str());
                                         write_file(path, replay_json(mp, *mv, (int) p.ops.size(), reruns));
                                         rec.replay = path;
-                                        // gate 2: fresh process
+                                        // gate 2: fresh process. It also decides when the in-process re-run did not reproduce:
+                                        // a library that keeps state across runs (statics) behaves differently the second time
+                                        // in one process, but the same again in a new one
+                                        const bool gate1_failed = !rec.gate_ok;
+                                        if (gate1_failed)
+                                                rec.gate_ok = true;
                                         if (rec.gate_ok) {
                                                 pid_t c2 = fork();
                                                 if (c2 == 0) {
